@@ -2,6 +2,7 @@ import Mkdb.Proofs.Wal
 import Mkdb.Proofs.CrashPrefix
 import Mkdb.Proofs.CrashBytes5
 import Mkdb.Proofs.PtSelfFree5
+import Mkdb.Proofs.Counters6
 /-!
 # C03 — a crash while a statement is being logged leaves a row-prefix state
 
@@ -398,5 +399,101 @@ example : ∃ db1 db2,
     db2.store.hdr = ⟨12, 4096, 16384, 13⟩ ∧ db2.wal.map toRec = [toRec recT1, toRec recT2, toRec recT3] := by
   obtain ⟨db1, db2, _, run1, e2, _, _, _, hw2, hh2, _⟩ := historyT
   exact ⟨db1, db2, run1, .update _ _ _ validSet7 specA2 e2 (.nil db2 sdbA2), hh2, by rw [hw2]; rfl⟩
+
+end Mkdb.Store
+
+/-! ## the range hypotheses discharged by the length of the history (W16) -/
+
+namespace Mkdb.Store
+open Mkdb.Engine Mkdb.Tree Mkdb.Page Mkdb.Tuple Mkdb.Generated
+
+/-- **C03.engine_records_well_formed_below_the_wrap**: `C03_engine_records_well_formed` with its three range
+hypotheses (`nextLSN < 2^64`, `nextFree < 2^64`, `lastKey < 2^32` in the store the statement leaves) replaced
+by a bound on the history: the database `db0` the acknowledged statements start from is reached from CREATE
+DATABASE by ANY history `Hist newDB w db0` (statements accepted or refused, CREATE TABLEs, flushes, crashes
+and recoveries; `C02_counters_after_any_history`), and the total work of that history plus the number of
+records the acknowledged statements and the last one logged is at most `2^32 - 9` (`maxRows`; the bound
+under which no counter has wrapped, `C02_counters_fit_their_go_types`).  Then every record of the log fits the
+wire types of `WALEntry`. -/
+theorem C03_engine_records_well_formed_below_the_wrap (sch : Levels) {db0 dbN dbC : Engine.DB}
+    {sdb0 sdbN sdbC : Spec.SDB} {stmts : List EStmt} {e : EStmt} {w : Work} (hist : Hist newDB w db0)
+    (run : SpecRun sch db0 sdb0 stmts dbN sdbN) (step : SpecRun sch dbN sdbN [e] dbC sdbC)
+    (hwal : db0.wal = [])
+    (pt : Levels) (tbls : List (Bytes × Levels)) (hA : AbsV db0.store pt sch tbls sdb0)
+    (hN : w.total + dbC.wal.length ≤ 4294967287) :
+    dbC.wal = dbN.wal ++ dbC.wal.drop dbN.wal.length ∧ ∀ r ∈ dbC.wal, (toRec r).wf := by
+  obtain ⟨hlk, hlsn, hnf⟩ := hist_run_fit hist ((specRun_adv run).1.trans (specRun_adv step).1)
+    (by rw [hwal]; exact hN)
+  exact C03_engine_records_well_formed sch run step hwal pt tbls hA hlsn
+    (Nat.lt_trans hnf (by decide)) hlk
+
+/-- non-vacuity: `tableDB` is reached by the history `CREATE TABLE t (a INT)` (work 3: two catalog rows, one
+table); the acknowledged INSERT of two rows and the UPDATE log three records -/
+example : ∃ db1 db2,
+    Hist newDB ⟨2, 1, 0, 0, 0⟩ tableDB ∧
+    SpecRun schT tableDB sdbA0 [.insert tname [] [[.int 5], [.int 6]]] db1 sdbA1 ∧
+    SpecRun schT db1 sdbA1 [.update tname [([97], .lit (.int 7))] (some (condEq 5))] db2 sdbA2 ∧
+    (⟨2, 1, 0, 0, 0⟩ : Work).total + db2.wal.length ≤ 4294967287 := by
+  obtain ⟨db1, db2, _, run1, e2, _, _, _, hw2, hh2, _⟩ := historyT
+  exact ⟨db1, db2, hist_tableDB, run1, .update _ _ _ validSet7 specA2 e2 (.nil db2 sdbA2), by rw [hw2]; decide⟩
+
+/-- **C03.insert_byte_cut_leaves_row_prefix_below_the_wrap**: `C03_insert_byte_cut_leaves_row_prefix` with
+its three range hypotheses replaced by the bound on the history (as in
+`C03_engine_records_well_formed_below_the_wrap`: `db0` reached from CREATE DATABASE by any history of work
+`w`, and `w.total` plus the number of records in the log the INSERT leaves at most `2^32 - 9`).  The
+conclusion is that of `C03_insert_byte_cut_leaves_row_prefix`, verbatim. -/
+theorem C03_insert_byte_cut_leaves_row_prefix_below_the_wrap (sch : Levels) {db0 dbN : Engine.DB}
+    {sdb0 sdbN : Spec.SDB} {stmts : List EStmt} {w : Work} (hist : Hist newDB w db0)
+    (run : SpecRun sch db0 sdb0 stmts dbN sdbN) (hwal : db0.wal = [])
+    (pt : Levels) (tbls : List (Bytes × Levels)) (hA : AbsV db0.store pt sch tbls sdb0)
+    (hself : PtSelf pt) (hf : FreshM db0.store tbls)
+    (table : Bytes) (cols : List Bytes) (lrows : List (List Sql.Lit))
+    (hvalid : ∀ r ∈ lrows.map (fun r => r.map Spec.litVal), ∀ v ∈ r, ValidVal v) (sdbC : Spec.SDB)
+    (hspec : Spec.specInsert sdbN table cols (lrows.map fun r => r.map Spec.litVal) = some sdbC)
+    (hrunok : ∀ pt tbls t schema, AbsV dbN.store pt sch tbls sdbN → (table, t) ∈ tbls →
+      schemaOf sch table = some schema →
+      InsRunOK schema (cols.map Engine.bytesToName) t dbN.store.hdr.lastKey dbN.store.hdr.nextLSN
+        dbN.store.hdr.nextFree (lrows.map fun r => r.map Spec.litVal))
+    (n : Nat) (dbC : Engine.DB)
+    (heval : Engine.evalInsert dbN table cols (lrows.map fun r => r.map Spec.litVal) = .ok n dbC)
+    (hN : w.total + dbC.wal.length ≤ 4294967287) (cut : Nat) :
+    (∀ r ∈ dbC.wal, (toRec r).wf) ∧
+    ∃ k torn,
+      (k ≤ (dbC.wal.drop dbN.wal.length).length ∧
+       Wal.readLog ((walFile dbC.wal).take ((walFile dbN.wal).length + cut))
+         = .ok ((dbN.wal ++ (dbC.wal.drop dbN.wal.length).take k).map toRec)
+             (walFile (dbN.wal ++ (dbC.wal.drop dbN.wal.length).take k)).length torn ∧
+       (walFile ((dbC.wal.drop dbN.wal.length).take k)).length ≤ cut ∧
+       (k < (dbC.wal.drop dbN.wal.length).length →
+         cut < (walFile ((dbC.wal.drop dbN.wal.length).take (k+1))).length) ∧
+       (torn = true ↔ (walFile ((dbC.wal.drop dbN.wal.length).take k)).length <
+         min cut (walFile (dbC.wal.drop dbN.wal.length)).length) ∧
+       Wal.afterRead ((walFile dbC.wal).take ((walFile dbN.wal).length + cut))
+         = walFile (dbN.wal ++ (dbC.wal.drop dbN.wal.length).take k) ∧
+       ∀ more : List Wal.Rec, (∀ r ∈ more, r.wf) →
+         Wal.readLog (Wal.afterRead ((walFile dbC.wal).take ((walFile dbN.wal).length + cut)) ++
+             Wal.encodeLog more)
+           = .ok ((dbN.wal ++ (dbC.wal.drop dbN.wal.length).take k).map toRec ++ more)
+               (Wal.encodeLog ((dbN.wal ++ (dbC.wal.drop dbN.wal.length).take k).map toRec ++ more)).length
+               false) ∧
+      ∃ rK ptR tblsK sdbK stK j,
+        replayAll (dbN.wal ++ (dbC.wal.drop dbN.wal.length).take k) db0.store = (rK, none, false) ∧
+        AbsV rK ptR sch tblsK sdbK ∧
+        Spec.findTable sdbK table = some stK ∧
+        (table, stK.rows.map (·.vals)) ∈ Spec.rowPrefixStates sdbN (.insert table cols lrows) ∧
+        (∀ n, n ≠ table → Spec.findTable sdbK n = Spec.findTable sdbN n) ∧
+        j ≤ lrows.length ∧ rK.hdr.lastKey = dbN.store.hdr.lastKey + j := by
+  obtain ⟨hlk, hlsn, hnf⟩ := hist_run_fit hist ((specRun_adv run).1.trans (evalInsert_runAdv heval))
+    (by rw [hwal]; exact hN)
+  exact C03_insert_byte_cut_leaves_row_prefix sch run hwal pt tbls hA hself hf table cols lrows hvalid sdbC hspec
+    hrunok n dbC heval hlsn (Nat.lt_trans hnf (by decide)) hlk cut
+
+/-- non-vacuity: the history `CREATE TABLE t (a INT)` to `tableDB` and `INSERT INTO t VALUES (5), (6)` on it
+(the example of `C03_insert_byte_cut_leaves_row_prefix`): work 3, two records -/
+example : ∃ db1, Hist newDB ⟨2, 1, 0, 0, 0⟩ tableDB ∧ tableDB.wal = [] ∧
+    Engine.evalInsert tableDB tname [] [[.int 5], [.int 6]] = .ok 2 db1 ∧
+    (⟨2, 1, 0, 0, 0⟩ : Work).total + db1.wal.length ≤ 4294967287 := by
+  obtain ⟨db1, _, _, _, e1, hw, _⟩ := byte_cut_example
+  exact ⟨db1, hist_tableDB, rfl, e1, by rw [hw]; decide⟩
 
 end Mkdb.Store
